@@ -343,6 +343,32 @@ def no_value_calls(ctx, sut, fpm, rng):
                             f"{label}: expected {want[0]} {str(want[2])[:200]}, got {str(got_fp)[:200]}")
 
 
+def keyword_named_properties(ctx, sut):
+    """Properties whose names equal class keywords / internals of the model (default, properties, required,
+    ...) on models that also have a model-level default, called with no value and with {}."""
+    for name in ("default", "properties", "required", "description", "const", "enum", "additionalProperties",
+                 "validators", "annotation", "python", "_dict", "inline"):
+        for member_default in ({name: "x"}, {}):
+            schema = {"type": "object", "title": "KeywordNamed", "default": member_default,
+                      "properties": {name: {"type": "string", "default": "inner"}, "other": {"type": "integer", "default": 3}}}
+            ctx.evaluation()
+            ctx.count("novalue.calls")
+            ctx.count("novalue.keyword_named_property")
+            try:
+                cls = sut.parse_direct(schema)
+                attr = next(key for key, prop in cls.properties.items() if prop.source == name)
+                for label, thunk in (("class()", lambda: cls()), ("class(NotPassed)", lambda: cls(sut.NotPassed())),
+                                     ("class({})", lambda: cls({}))):
+                    got = thunk()
+                    want = member_default.get(name, "inner") if label != "class({})" else "inner"
+                    if getattr(got, attr) != want or got["other"] != 3:
+                        ctx.witness("novalue_rule_broken", {"schema": schema, "call": label},
+                                    f"{label}: {attr}={getattr(got, attr)!r} (expected {want!r}), other={got['other']!r}")
+            except Exception as exc:  # pylint: disable=broad-except
+                ctx.witness("novalue_raised", {"schema": schema, "call": "class()"},
+                            f"{type(exc).__name__}: {exc!r}: a model with a property named {name!r}"[:300])
+
+
 def ill_typed_keyword_defaults(ctx, sut):
     """Defaults whose validation raises TypeError rather than ValidationError (the DSL does not type
     check keyword values): still 'returned as-is, never an error'."""
@@ -385,6 +411,7 @@ def run_shard(ctx):
     counter = [0]
     if ctx.shard == 0:
         ill_typed_keyword_defaults(ctx, sut)
+        keyword_named_properties(ctx, sut)
     for idx in range(ctx.params["objects"]):
         spec, owner, props, kinds, overlap = make_object(rng, counter)
         check_object(ctx, sut, fpm, rng, spec, owner, props, kinds, overlap)
